@@ -129,7 +129,7 @@ class World:
             cls.__module__ = self.modname
             cls._tcv_key = key
             self.classes[key] = cls
-        for name in ('Auto1', 'Auto2', 'Auto3', 'AutoSet', 'Plain1', 'Hand1', 'MemBox'):
+        for name in ('Auto1', 'Auto2', 'Auto3', 'AutoSet', 'Plain1', 'Hand1', 'MemBox', 'MemBag'):
             mod.__dict__[name].__module__ = self.modname
         self.module = mod
         public = [n for n in mod.__dict__ if not n.startswith('_')]
@@ -238,7 +238,7 @@ class World:
         rt = self.rt
         t = self.desc['tasks'][key]
         kind = t.get('data', 'json')
-        persisted = kind != 'inmemory'
+        persisted = kind not in ('inmemory', 'inmemory_empty')
         skey = task.name_for_persistence if task.get_config() is not None and task.get_config().base_dir is not None else None
         rt.log.append([task.fullname, skey, key])
         ident = (key, skey) if persisted else (key, id(task))
@@ -381,6 +381,10 @@ class World:
             if kind == 'continues':
                 data.finished()
             return data
+        if kind == 'inmemory_empty':
+            box = self.module.MemBag()
+            box.payload = payload
+            return box
         if kind == 'inmemory':
             box = self.module.MemBox()
             box.payload = payload
@@ -446,7 +450,7 @@ class World:
             p = json.loads((d / 'term.json').read_bytes().decode('utf-8'))
             if kind == 'dir' and f'attempt_{p.get("gen")}' not in names:
                 raise ValueError(f'directory payload holds the output of another attempt: {names} for generation {p.get("gen")}')
-        elif kind == 'inmemory':
+        elif kind in ('inmemory', 'inmemory_empty'):
             p = value.payload
         elif kind in ('generator0', 'lon0', 'dir0'):
             # legitimately EMPTY results (zero items / zero arrays / empty directory): no room for a provenance term
@@ -723,6 +727,7 @@ _KIND_ANN = {
     'dirlink': ('_h.tdata.DirData', None),
     'continues': ('_h.tdata.ContinuesData', None),
     'inmemory': ('"MemBox"', None),
+    'inmemory_empty': ('"MemBag"', None),
     'generator0': ('_h.Generator', None),
     'lon0': ('list', '_h.tdata.ListOfNumpyData'),
     'dir0': ('_h.tdata.DirData', None),
@@ -731,7 +736,7 @@ _KIND_ANN = {
 _WRONG = {
     'json': (1, 2), 'json_list': {'a': 1}, 'numpy': [1, 2], 'pandas': {'a': 1}, 'series': [1], 'generator': None,
     'generator_lazy': None, 'list_of_numpy': {'a': 1}, 'dir': {'a': 1}, 'continues': {'a': 1}, 'inmemory': 5,
-    'generator0': None, 'lon0': {'a': 1}, 'dir0': {'a': 1}, 'dirlink': {'a': 1},
+    'generator0': None, 'lon0': {'a': 1}, 'dir0': {'a': 1}, 'dirlink': {'a': 1}, 'inmemory_empty': 5,
 }
 
 _OBJECT_CLASSES = '''
@@ -739,6 +744,16 @@ class MemBox(_h.tdata.InMemoryData):
     def __init__(self):
         super().__init__()
         self.payload = None
+
+
+class MemBag(MemBox):
+    """container-style in-memory result: has a length, and a legitimately EMPTY bag is falsy"""
+    def __init__(self):
+        super().__init__()
+        self.items = []
+
+    def __len__(self):
+        return len(self.items)
 
 
 class Auto1(_h.AutoParameterObject):
